@@ -80,6 +80,10 @@ pub fn vf_peekable<I: Iterator>(it: I) -> (r: std::iter::Peekable<I>)
     ensures rest(r) == iter_items(it),
 { it.peekable() }
 pub uninterp spec fn iter_items<I: Iterator>(it: I) -> Seq<I::Item>;
+/// ASSUMED: seen as a plain iterator, a Peekable yields exactly `rest`
+pub broadcast proof fn axiom_peekable_items<I: Iterator>(p: std::iter::Peekable<I>)
+    ensures #[trigger] iter_items(p) == rest(p),
+{ admit(); }
 /// ASSUMED: the items of a `slice::Split` are its pieces
 pub broadcast proof fn axiom_split_iter_items<'a, T, P: FnMut(&T) -> bool>(s: std::slice::Split<'a, T, P>)
     ensures #[trigger] iter_items(s) == split_items(s),
